@@ -116,9 +116,14 @@ func (f *Formatter) formatBackendProperties(props []*ast.BackendProperty, nestLe
 			Operator: " = ",
 		}
 		if po, ok := prop.Value.(*ast.BackendProbeObject); ok {
-			line.Value = "{\n"
+			// comments of the object: before "{", before "}" and after "}"
+			line.Value = f.formatComment(po.Leading, " ", 0) + "{\n"
 			line.Value += f.formatBackendProperties(po.Values, nestLevel+1)
+			if len(po.Infix) > 0 {
+				line.Value += f.formatComment(po.Infix, "\n", nestLevel+1)
+			}
 			line.Value += f.indent(nestLevel) + "}"
+			line.Trailing = f.trailing(po.Trailing)
 			// probe property is object, semicolon is not needed
 			line.isObject = true
 		} else {
